@@ -6,6 +6,7 @@ CONSTANTS Conns = {1, 2, 3}
           MaxFrame = 4
           FragSize = 2
           Units = {0, 1, 3, 5}
+          Role = "server"
           Dir = "out"
 INVARIANTS Bounded NoGhostMessage AccBounded
 ACTION_CONSTRAINT ExportEdge
